@@ -767,6 +767,11 @@ func runC16(c *Ctx, r *Rec) {
 				return true
 			})
 		}
+		if bad == "" && len(loops) == 1 {
+			if _, s := coveringLoop(c, info, loops[0]); s != "" {
+				bad = s
+			}
+		}
 		r.check(bad == "", "D2-merge", construct, c.pos(fd.Pos()), "copy of first, then SetValue(key, value) for every association of second in order", bad)
 		r.check(operandsNotMutated(info, fd) == "", "D4-pure", construct, c.pos(fd.Pos()), "no mutating call on an operand", operandsNotMutated(info, fd))
 		b := resultFreshNoAlias(c, fd)
@@ -869,6 +874,11 @@ func runC16(c *Ctx, r *Rec) {
 					if bad == "" {
 						bad = "the value stored is not catalog.GetValue(key) for the same key"
 					}
+				}
+			}
+			if bad == "" && loop != nil {
+				if _, s := coveringLoop(c, info, loop); s != "" {
+					bad = "the loop over the requested keys can stop early: " + s
 				}
 			}
 			r.check(bad == "", "D3-extract", construct, c.pos(fd.Pos()), "keys visited in order; SetValue(key, catalog.GetValue(key)) only under a presence test on (key, catalog)", bad)
